@@ -15,6 +15,8 @@ class LoopSpec:
     decreases: str | None = None                    # variant for while loops (int expression, must be >= 0 and decrease)
     unroll: int | None = None                       # bounded stand-in ONLY (labelled bounded in the evidence)
     ghost_step: Callable | None = None              # ghost update executed at the end of each iteration
+    ghost: dict = field(default_factory=dict)       # ghost arrays owned by the loop: name -> "int->int" | "int->val" | "val->val" | "val->int" | "val->bool"
+    ghost_update: dict = field(default_factory=dict)  # name -> (key spec expr, value spec expr), evaluated at iteration end
 
 
 @dataclass
